@@ -478,10 +478,46 @@ package value
 //@   option no-impl-check
 //@   iterates yield count mcard(self) args mkeyAt(self, cbidx), mget(self, mkeyAt(self, cbidx))
 //@   assigns nothing
+// The stop protocol of the implementations in this package is verified (C05: calling yield again after it returned
+// false panics inside a range-over-func loop of the caller): `yields yield` generates the obligation
+// protocol:yield-not-called-after-stop; handing yield to another Iter counts as calling it. The iteration summaries
+// (`iterates`) stay assumed, and the frames are what the functions do besides calling yield (option frame-trusted).
 //@ func (v Map) Iter
-//@   trusted
+//@   property C05
+//@   yields yield
 //@   iterates yield count mcard(v.m) args mkeyAt(v.m, cbidx), mget(v.m, mkeyAt(v.m, cbidx))
 //@   assigns nothing
+//@   option frame-trusted
+//@ func (m MergeMap) Iter
+//@   property C05
+//@   yields yield
+//@   assigns nothing
+//@   option frame-trusted
+//@   callback "range m.a.Iter" invariant !yieldstopped() && !yieldbad()
+//@   callback "range m.b.Iter" invariant !yieldstopped() && !yieldbad()
+//@ func (a AppendMap) Iter
+//@   property C05
+//@   yields yield
+//@   assigns nothing
+//@   option frame-trusted
+//@ func (s RealMap) Iter
+//@   property C05
+//@   yields yield
+//@   assigns nothing
+//@   option frame-trusted
+//@   loop 1 invariant !yieldstopped() && !yieldbad()
+// (funcMapType[V].Iter is generic and never instantiated inside the repository: not a unit)
+//@ func (w toMapWrapper[S]) Iter
+//@   property C05
+//@   yields yield
+//@   assigns nothing
+//@   option frame-trusted
+//@   loop 1 invariant !yieldstopped() && !yieldbad()
+//@ func (b bin) Iter
+//@   property C05
+//@   yields yield
+//@   assigns nothing
+//@   option frame-trusted
 
 // '+' on maps builds a view on both operands and writes nothing that existed before
 //@ func (v Map) Merge
@@ -623,9 +659,13 @@ package value
 // MapStorage.Iter for its own view) and createFlat, which copies the view entry by entry into a list map or a Go map:
 // the copy denotes the same abstract map.
 //@ func (m ReplaceMap) Iter
-//@   trusted
+//@   property C05
+//@   yields yield
 //@   iterates yield count mcard(box(m)) args mkeyAt(box(m), cbidx), mget(box(m), mkeyAt(box(m), cbidx))
 //@   assigns nothing
+//@   option frame-trusted
+//@   callback "m.orig.Iter(func" invariant !yieldstopped() && !yieldbad()
+//@   callback "m.orig.Iter(func" stopped !yieldbad()
 
 //@ func (m ReplaceMap) createFlat
 //@   property C13
